@@ -1261,7 +1261,15 @@ impl NamingActor {
             NamingRaftReq::RemoveInstance(instance_key) => {
                 let service_key = instance_key.get_service_key();
                 let instance_short_key = instance_key.get_short_key();
-                self.remove_instance(&service_key, &instance_short_key, None);
+                // the raft log only owns persistent instances: an ephemeral instance living at
+                // the address now (e.g. the instance was switched to ephemeral) is not its to remove
+                let is_ephemeral = self
+                    .get_instance(&service_key, &instance_short_key)
+                    .map(|e| e.ephemeral)
+                    .unwrap_or(false);
+                if !is_ephemeral {
+                    self.remove_instance(&service_key, &instance_short_key, None);
+                }
                 Ok(NamingRaftResult::None)
             }
         }
